@@ -590,8 +590,14 @@ class ViewsStream(Stream):
             outs.append(ret + "#" + dump())
             # ---- the property, stated on the real objects
             empty_note = ""
-            if fam == "set" and not dup_origin and len(list(held)) != len(held):
-                dup_origin = "F08b" if (kind == "v" and op[1] == "setitem") else "F08c"
+            if fam == "set" and not dup_origin:
+                if kind == "f" and len(list(held)) != len(held):
+                    dup_origin = "F08c"  # a view fetched from a header with case-duplicates
+                elif kind == "v" and op[1] == "setitem" and not ret.startswith("!"):
+                    members = list(held)
+                    idx = op[2] if op[2] >= 0 else len(members) + op[2]
+                    if any(i != idx and m.lower() == op[3].lower() for i, m in enumerate(members)):
+                        dup_origin = "F08b"  # item assignment of a member present elsewhere
             if fam == "set" and dup_origin:
                 empty_note = dup_origin
             elif fam == "auth" and view_empty(fam, held):
